@@ -5,6 +5,9 @@
 //!    under a watchdog.
 //! M: the same and `spawn_and_write_streams` with `line_mapped` / `mapped` / `tee(line_mapped, Vec)` writers as the targets and
 //!    children whose lines arrive in pieces or are longer than the copy buffer / the pipe.
+//! L: both entry points on children whose process outlives its streams (closes stdout and stderr, together or one after the other,
+//!    then stays alive): was the child still running when `spawn_and_write_streams` returned, and did the call return well before
+//!    the child's exit ("returns once both streams close").
 use cnbv::*;
 use libherokubuildpack::command::CommandExt;
 use libherokubuildpack::write::mappers::add_prefix;
@@ -220,8 +223,107 @@ fn run_m(f: &[String]) -> String {
     with_retry(&|limit| attempt_m(entry, mode, targets[0], targets[2], items, limit))
 }
 
+
+// ------------------------------------------------------------------------------------------------ L
+/// items of an L script: (kind, len, seed, delay, text), kind as in child.rs: `o`, `e`, `xo`, `xe`, `xb`, `z`
+fn parse_l_items(items: &str) -> Vec<(String, usize, usize, u64, bool)> {
+    if items == "-" { return vec![]; }
+    items.split(';').map(|it| {
+        let p: Vec<&str> = it.split('.').collect();
+        assert!(p.len() == 4 || (p.len() == 5 && p[4] == "t"));
+        assert!(["o", "e", "xo", "xe", "xb", "z"].contains(&p[0]));
+        let (len, seed, delay): (usize, usize, u64) = (p[1].parse().unwrap(), p[2].parse().unwrap(), p[3].parse().unwrap());
+        if p[0] != "o" && p[0] != "e" { assert!(p.len() == 4 && len == 0 && seed == 0); }
+        (p[0].to_string(), len, seed, delay, p.len() == 5)
+    }).collect()
+}
+/// (ms the script sleeps in total, ms it sleeps after it has closed both of its streams explicitly; 0 = they close at exit)
+fn l_times(items: &[(String, usize, usize, u64, bool)]) -> (u64, u64) {
+    let total: u64 = items.iter().map(|i| i.3).sum();
+    let (mut co, mut ce, mut after, mut both) = (false, false, 0u64, false);
+    for i in items {
+        if both { after += i.3; }
+        match i.0.as_str() { "xo" => co = true, "xe" => ce = true, "xb" => { co = true; ce = true; } _ => {} }
+        if co && ce { both = true; }
+    }
+    (total, after)
+}
+/// the child must outlive its streams by this much for the `run` / `t` parts of the observation to be reported (else `na`)
+const OUTLIVE_MS: u64 = 1000;
+/// `t=early`: the call returned more than this before the earliest moment the child can exit
+const EARLY_MARGIN_MS: u64 = 500;
+
+fn run_l(f: &[String]) -> String {
+    assert!(f.len() == 4);
+    let (entry, targets, items) = (f[1].clone(), f[2].as_bytes().to_vec(), f[3].clone());
+    assert!(entry == "out" || entry == "spawn");
+    assert!(targets.len() == 3 && targets[1] == b'/' && b"vlmt".contains(&targets[0]) && b"vlmt".contains(&targets[2]));
+    let (to, te) = (targets[0], targets[2]);
+    let (total, after) = l_times(&parse_l_items(&items));
+    let child = std::env::current_exe().unwrap().parent().unwrap().join("child");
+    let dir = tempfile::tempdir().unwrap();
+    let pidfile = dir.path().join("pid");
+    let (tx, rx) = std::sync::mpsc::channel();
+    let (entry2, pidfile2) = (entry.clone(), pidfile.clone());
+    let th = std::thread::spawn(move || {
+        let (mut oa, mut ob, mut ea, mut eb) = (vec![], vec![], vec![], vec![]);
+        let r = {
+            let wo = make_target(to, &mut oa, &mut ob);
+            let we = make_target(te, &mut ea, &mut eb);
+            let mut cmd = std::process::Command::new(child);
+            cmd.arg("seq").arg(items).env("CNBV_PIDFILE", pidfile2).stdin(std::process::Stdio::null());
+            let started = std::time::Instant::now();
+            if entry2 == "out" { cmd.output_and_write_streams(wo, we).map(|o| (o.status, Some((o.stdout, o.stderr)), None)) }
+            else {
+                cmd.spawn_and_write_streams(wo, we).and_then(|mut c| {
+                    // the two facts about the moment of return; then let the child finish on its own (its status is part of the observation)
+                    let elapsed = started.elapsed();
+                    let running = c.try_wait().map(|s| s.is_none());
+                    let st = c.wait();
+                    running.and_then(|r| st.map(|st| (st, None, Some((r, elapsed)))))
+                })
+            }
+        };
+        let _ = tx.send((r, oa, ob, ea, eb));
+    });
+    let res = match rx.recv_timeout(LIMIT) {
+        Ok((Ok((status, out, at_return)), oa, ob, ea, eb)) => {
+            let part = |kind: u8, a: &[u8], b: &[u8]| if kind == b't' { format!("{}+{}", digest(a), digest(b)) } else { digest(a) };
+            let (od, ed) = match &out { Some((o, e)) => (digest(o), digest(e)), None => ("-".to_string(), "-".to_string()) };
+            let (run, t) = match at_return {
+                Some((running, elapsed)) if after >= OUTLIVE_MS =>
+                    (u8::from(running).to_string(), if (elapsed.as_millis() as u64) + EARLY_MARGIN_MS < total { "early" } else { "late" }.to_string()),
+                _ => ("na".to_string(), "na".to_string()),
+            };
+            format!("o={}/{};e={}/{};status={};run={run};t={t}", od, part(to, &oa, &ob), ed, part(te, &ea, &eb), status.code().map(|c| c.to_string()).unwrap_or_else(|| "signal".into()))
+        }
+        Ok((Err(_), ..)) => "err:io".to_string(),
+        Err(_) => {
+            if let Ok(p) = std::fs::read_to_string(&pidfile) { let _ = std::process::Command::new("kill").arg("-9").arg(p.trim()).status(); }
+            "timeout".to_string()
+        }
+    };
+    let _ = th.join();
+    res
+}
+
+/// The L cases sleep (1.5 s and more each): the L cases of a generated run are executed together, each on its own thread, when the
+/// first of them is asked for; `run_case` takes the result of the same `run_l(fields)` from here. A case that was not generated in
+/// this process (replay, shrinking) is run directly.
+static L_BATCH: std::sync::Mutex<Vec<Vec<String>>> = std::sync::Mutex::new(vec![]);
+static L_RUNNING: std::sync::Mutex<Vec<(Vec<String>, std::thread::JoinHandle<String>)>> = std::sync::Mutex::new(vec![]);
+fn run_l_batched(f: &[String]) -> String {
+    let batch: Vec<Vec<String>> = std::mem::take(&mut *L_BATCH.lock().unwrap());
+    if !batch.is_empty() {
+        let mut running = L_RUNNING.lock().unwrap();
+        for fields in batch { let f2 = fields.clone(); running.push((fields, std::thread::spawn(move || run_l(&f2)))); }
+    }
+    let handle = { let mut running = L_RUNNING.lock().unwrap(); running.iter().position(|(k, _)| k.as_slice() == f).map(|i| running.swap_remove(i).1) };
+    match handle { Some(h) => h.join().unwrap_or_else(|_| "PANIC".to_string()), None => run_l(f) }
+}
+
 fn run_case(f: &[String]) -> String {
-    match f[0].as_str() { "A" => run_a(f), "B" => run_b(f), "M" => run_m(f), _ => panic!("kind") }
+    match f[0].as_str() { "A" => run_a(f), "B" => run_b(f), "M" => run_m(f), "L" => run_l_batched(f), _ => panic!("kind") }
 }
 
 // ------------------------------------------------------------------------------------------------ generators
@@ -294,6 +396,24 @@ fn case_m(entry: &str, mode: &str, targets: &str, items: &[MItem], kind: &str) -
                    ("line_in_pieces".into(), u8::from(po || pe).to_string()), ("delays".into(), u8::from(items.iter().any(|i| i.3 > 0)).to_string()), ("items".into(), items.len().min(9).to_string())],
         // a mapped target whose stream has a line that cannot arrive in one read: written in pieces, or longer than the 8 KiB copy buffer
         nontrivial: (mapped_o && (po || lo > 8192)) || (mapped_e && (pe || le > 8192)),
+    }
+}
+
+fn case_l(entry: &str, targets: &str, items: &str, kind: &str) -> Case {
+    let parsed = parse_l_items(items);
+    let (_, after) = l_times(&parsed);
+    let closes: Vec<&str> = parsed.iter().map(|i| i.0.as_str()).filter(|k| k.starts_with('x')).collect();
+    let close_shape = match closes.as_slice() { [] => "none", ["xb"] => "both-at-once", ["xo", "xe"] => "stdout-then-stderr", ["xe", "xo"] => "stderr-then-stdout", ["xo"] | ["xe"] => "one-only", _ => "other" };
+    let bytes: usize = parsed.iter().map(|i| i.1).sum();
+    let f: Vec<String> = vec!["L".into(), entry.into(), targets.into(), items.into()];
+    L_BATCH.lock().unwrap().push(f.clone());
+    Case {
+        fields: f,
+        tags: vec![("kind".into(), kind.into()), ("entry".into(), entry.into()), ("targets".into(), targets.into()), ("closes".into(), close_shape.into()),
+                   ("outlives_ms".into(), (if after == 0 { "0" } else if after < OUTLIVE_MS { "lt1000" } else if after < 2000 { "1000-1999" } else { "ge2000" }).into()),
+                   ("bytes".into(), (if bytes == 0 { "0" } else if bytes <= 65536 { "le64k" } else { "gt64k" }).into())],
+        // the return clause is judged: the entry that hands the child back, and a child that outlives its streams by >= 1 s
+        nontrivial: entry == "spawn" && after >= OUTLIVE_MS,
     }
 }
 
@@ -503,6 +623,53 @@ fn generate(tier: &str, seed: u64, emit: &mut dyn FnMut(Case)) {
         let tg = format!("{}/{}", *r.pick(&["v", "l", "m", "t"]), *r.pick(&["v", "l", "m", "t"]));
         emit(case_m(*r.pick(&entries), if r.chance(1, 3) { "par" } else { "seq" }, &tg, &items, "M-rnd"));
     }
+    // L. children that outlive their streams: the child closes stdout and stderr (together, or one and later the other, with writes to
+    //    the stream that is still open in between) and then stays alive for D ms. D >= 1500: whether the child was still running when
+    //    spawn_and_write_streams returned is judged (`run`), and the coarse timing class `t`; D = 300: only the bytes and the status.
+    let banner = "o.16.1.0;e.16.2.0";
+    let mut l_cases: Vec<(&str, &str, String, &str)> = vec![];
+    let lingers: &[u64] = if thorough { &[300, 1500, 3000] } else { &[300, 1500] };
+    for &d in lingers {
+        // a banner on both streams, both closed at once, then alive (a daemon detaching from its stdio)
+        l_cases.push(("spawn", "v/v", format!("{banner};xb.0.0.0;z.0.0.{d}"), "L-close-both"));
+        // stdout closed first, stderr still written to (after 100 ms) and closed later; and the other way round
+        l_cases.push(("spawn", "v/l", format!("o.5.1.0;xo.0.0.0;e.7.2.100.t;e.1.10.0;xe.0.0.20;z.0.0.{d}"), "L-close-one-then-other"));
+        l_cases.push(("spawn", "t/v", format!("e.5.1.0;xe.0.0.0;o.7.2.100.t;o.1.10.0;xo.0.0.20;z.0.0.{d}"), "L-close-one-then-other"));
+    }
+    // the documented contrast: output_and_write_streams returns the exit status, i.e. after the exit (not judged)
+    l_cases.push(("out", "v/v", format!("{banner};xb.0.0.0;z.0.0.1500"), "L-close-both"));
+    l_cases.push(("out", "l/m", "o.5.1.0;xo.0.0.0;e.7.2.100;xe.0.0.0;z.0.0.300".to_string(), "L-close-one-then-other"));
+    // several pipe buffers on both streams before the close; mapped targets
+    l_cases.push(("spawn", "l/t", "o.200000.1.0;e.70000.2.0;o.100000.3.0;xb.0.0.0;z.0.0.1500".to_string(), "L-volume"));
+    // nothing written at all; closes after a delay; the lifetime after the close in two pieces; a last close that is the one of both streams
+    l_cases.push(("spawn", "v/v", "xb.0.0.0;z.0.0.1500".to_string(), "L-silent"));
+    l_cases.push(("spawn", "m/v", "o.10.1.200.t;xb.0.0.100;z.0.0.1500".to_string(), "L-close-both"));
+    l_cases.push(("spawn", "v/v", format!("{banner};xb.0.0.0;z.0.0.800;z.0.0.800"), "L-close-both"));
+    l_cases.push(("spawn", "v/v", format!("{banner};xe.0.0.0;xo.0.0.50;z.0.0.1500"), "L-close-one-then-other"));
+    // streams that stay open until the exit: alive without writing / only one stream closed (nothing to judge but bytes and status)
+    l_cases.push(("spawn", "v/v", "o.5.1.0;z.0.0.300;e.5.2.0".to_string(), "L-open-until-exit"));
+    l_cases.push(("spawn", "l/l", "o.3.1.0;xo.0.0.0;z.0.0.300;e.3.1.0".to_string(), "L-open-until-exit"));
+    if thorough {
+        for idx in 0..24 {
+            let mut r = Rng::for_case(seed ^ 0x4C, idx);
+            let mut items: Vec<String> = vec![];
+            for _ in 0..r.below(4) { items.push(format!("{}.{}.{}.{}", if r.chance(1, 2) { "o" } else { "e" }, *r.pick(&[0usize, 1, 100, 8193, 70_000]), r.below(251), if r.chance(1, 3) { 5 } else { 0 })); }
+            let first_o = r.chance(1, 2);
+            match r.below(3) {
+                0 => items.push("xb.0.0.0".into()),
+                _ => {
+                    items.push(format!("{}.0.0.0", if first_o { "xo" } else { "xe" }));
+                    if r.chance(1, 2) { items.push(format!("{}.{}.{}.30", if first_o { "e" } else { "o" }, r.range(1, 3000), r.below(251))); }
+                    items.push(format!("{}.0.0.{}", if first_o { "xe" } else { "xo" }, r.below(60)));
+                }
+            }
+            items.push(format!("z.0.0.{}", *r.pick(&[1500u64, 2000])));
+            let tg = format!("{}/{}", *r.pick(&["v", "l", "m", "t"]), *r.pick(&["v", "l", "m", "t"]));
+            l_cases.push(("spawn", Box::leak(tg.into_boxed_str()), items.join(";"), "L-rnd"));
+        }
+    }
+    // CNBV_C19_NO_LINGER=1 leaves the family out
+    if std::env::var("CNBV_C19_NO_LINGER").is_err() { for (en, tg, items, kind) in &l_cases { emit(case_l(en, tg, items, kind)); } }
 }
 
 fn main() { main_loop("c19", &generate, &run_case); }
